@@ -10,8 +10,8 @@
     by name) — in particular for every dump into `SchemaD` under any interpretation of resolver ids / default reprs / enum value
     strings — `dumpAt F (clone s) n = dumpAt F s n` for every type name `n`: what C20 / C15 / C12 establish about a schema
     description transfers to its clones.
-  Directives: `clone_refines_directives_partial` (the healing part; the copy of a directive having the view of its source is the
-  piece not proved here).
+  Directives: `clone_refines_directives_partial` (the healing part); the full statement — same names, same ORDER, same views — is
+  `clone_refines_directives` in Props/C14_order.lean, with the order theorems of the `types` dict.
 -/
 import PyGqlModel.Lemmas.HeapCopyView
 import PyGqlModel.Props.C14_closed
@@ -139,7 +139,8 @@ theorem current_clone_refines {α : Type} (F : TypeO × List (Option (FieldO × 
     (e : clone PyGql.Generated.HeapCfg.currentCfg fuel s h = some (h', s')) (n : String) : dumpAt F h' s' n = dumpAt F h s n :=
   clone_refines F _ hd hk fuel s h h' s' hc hw e n
 
-/-- DIRECTIVES, PARTIAL: the directive objects registered in the clone have the by-name view the copying phase gave them
+/-- SUBSUMED (kept for name stability) by the full `clone_refines_directives` (Props/C14_order.lean), which supplies the piece announced as missing below.
+    DIRECTIVES, PARTIAL: the directive objects registered in the clone have the by-name view the copying phase gave them
     (healing changes nothing by name). Missing for the full statement `dirV (clone) = dirV (source)`: that `_clone_directive`'s
     copy has the view of its source (the analogue of `cloneTypes_view` for `cloneDirs`) -/
 theorem clone_refines_directives_partial (cfg : Cfg) (hd : cfg.deepClone = true) (hk : cfg.keepAllTypes = true) (fuel : Nat)
